@@ -99,6 +99,50 @@ func C14typetext(p *load.Program, run *report.Run) {
 		return true
 	})
 	names = readerNameTable(pkg, parse)
+	if len(res) == 0 && len(names) > 0 {
+		// a reader written by hand: there is no grammar to read off its source.  What remains decidable is
+		// the name table: every name the writer prints for a scalar kind is a name the reader maps to that
+		// kind.  Size and array spellings are not decided here.
+		wnames := map[string]string{}
+		for _, f := range pkg.Syntax {
+			ast.Inspect(f, func(n ast.Node) bool {
+				vs, ok := n.(*ast.ValueSpec)
+				if !ok || len(vs.Names) != 1 || vs.Names[0].Name != "Types" || len(vs.Values) != 1 {
+					return true
+				}
+				if cl, ok := vs.Values[0].(*ast.CompositeLit); ok {
+					for _, el := range cl.Elts {
+						if kv, ok := el.(*ast.KeyValueExpr); ok {
+							if tv, ok := info.Types[kv.Key]; ok && tv.Value != nil {
+								wnames[constant.StringVal(tv.Value)] = types.ExprString(kv.Value)
+							}
+						}
+					}
+				}
+				return true
+			})
+		}
+		bad := ""
+		checked := 0
+		for _, tc := range []string{"TBool", "TInt", "TUint", "TString", "TStruct"} {
+			for name, c := range wnames {
+				if c != tc {
+					continue
+				}
+				checked++
+				if names[name] != tc {
+					bad = fmt.Sprintf("the writer names %s %q, the reader maps that name to %q", tc, name, names[name])
+				}
+			}
+		}
+		run.Count("type-texts", checked)
+		if bad != "" {
+			run.Violate("type-text-grammar", "types.Parse/names", p.Rel(parse.Pos()), bad, nil)
+		} else {
+			run.OK("type-text-grammar", "types.Parse/names", p.Rel(parse.Pos()), fmt.Sprintf("hand-written reader: %d writer names are in its name table with the same kind; size and array spellings not decided", checked))
+		}
+		return
+	}
 	if sizedRe == nil || arrRe == nil || len(names) == 0 {
 		run.Undecided("type-text-grammar", "types.Parse", p.Rel(parse.Pos()), "the reader's regular expressions or name table were not recognised")
 		return
